@@ -61,4 +61,4 @@ if cap:
     open(os.path.join(cap, "out_%d" % n), "wb").write(p.stdout)
 sys.stdout.write(p.stdout.decode())
 sys.stdout.flush()
-sys.exit(0)
+sys.exit(p.returncode)      # 10 = satisfiable, 20 = unsatisfiable: what a real solver returns
